@@ -129,10 +129,20 @@ Target(c) == CASE c = "empty" -> "default"
                [] HostKind(c) = "out" -> "outside"
                [] OTHER -> "other"
 
+(* Don't-care: a hostname that differs from an accepted one only in letter
+   case names the same host (name resolution ignores case).  The matcher of
+   the repository is case-sensitive, so the code refuses it; an implementation
+   that folded case first would not relay anywhere the operator did not
+   consent to.  The oracle therefore does not object to a dial for such a
+   class, and does not expect one either. *)
+Folded(c) == IF c = "upper_wss" THEN "in_wss" ELSE c
+MayDial(p, a, c) == Accepted(p, a, c) \/ Accepted(p, a, Folded(c))
+
 Expected(p, a, c) ==
   [pattern |-> p, allow |-> a, class |-> c,
    accepted |-> Accepted(p, a, c),
-   target |-> IF Accepted(p, a, c) THEN Target(c) ELSE "none"]
+   may_dial |-> MayDial(p, a, c),
+   target |-> IF MayDial(p, a, c) THEN Target(c) ELSE "none"]
 
 (* What runSession does (written after the code, line by line):
      url.Parse error                                  -> reject
@@ -162,7 +172,8 @@ Init == InitCore /\ pcase = <<>>
    change.  "tick" is not at rest: the ticker fires by itself. *)
 HandlerParked(s) == hpc[s] \in {"none", "dialing", "relaying", "done"}
 MainParked ==
-  \/ mpc \in {"polled", "answer", "waitdc"}
+  \/ mpc \in {"polled", "answer"}
+  \/ (mpc = "waitdc" /\ ~opened[cur])       \* with the channel open the select takes <-dataChan at once
   \/ (mpc = "get" /\ inUse = N)
   \/ (mpc = "tick" /\ cur = MaxSess)
 Quiet == MainParked /\ \A s \in Sessions : HandlerParked(s)
